@@ -338,6 +338,7 @@ contract(
     f"{ROI}:VariableSizedTiles.__init__",
     ["C04"],
     inputs=dict(self=Obj(f"{ROI}:VariableSizedTiles"), chunks=Tup(SeqOf(Int(ge=0), "tuple"), SeqOf(Int(ge=0), "tuple"))),
+    requires=[lambda chunks: And(*[forall(0, _olen(ch), lambda j, ch=ch: _oget(ch, j) >= 0) for ch in chunks])],
     ensures=[
         (
             "offsets are the prefix sums of the chunk sizes (representation invariant established)",
@@ -346,10 +347,8 @@ contract(
     ],
     modifies=lambda self: [(self, "_offsets", Tup(OFFS, OFFS))],
     returns=lambda self: None,
-    verify=False,
-    trusted_reason="numpy asarray(...).cumsum(dtype=int32): assumed to compute prefix sums (requires the total to fit int32); BOUNDED check of the same contract on the real code",
     native_samples=_vt_samples,
-    note="assumed in proofs; bounded native check",
+    note="proved over numpy's asarray/cumsum taken as prefix sums (library model; the total is assumed to fit int32); the bounded native run checks that model against real numpy",
 )
 
 
